@@ -232,15 +232,26 @@ def main():
     # thorough tier: the independent checker re-checks the property's compiled theorems and everything
     # they depend on, and lists the axioms of the whole context (cached per tree)
     if tier == 'thorough' and os.path.exists(os.path.join(V, 'coq', 'theories', P['theorems'] + '.vo')):
+        # one coqchk run per tree over ALL property files (they share almost all of their dependencies: ~3 min for
+        # the twenty together), shared by the twenty checks through a cache file
+        libs = ' '.join('SaoVerif.Properties.' + c for c in sorted(props.PROPS)
+                        if os.path.exists(os.path.join(V, 'coq', 'theories', 'Properties', c + '.vo')))
         lib = 'SaoVerif.' + P['theorems'].replace('/', '.')
-        cache = os.path.join(BUILD, 'coqchk-' + tree_stamp() + '-' + cid + '.log')
-        if not os.path.exists(cache):
-            open(cache, 'w').write(sh(f'cd {V}/coq && timeout 5400 coqchk -silent -o -Q theories SaoVerif {lib} 2>&1 | tail -40').stdout)
+        cache = os.path.join(BUILD, 'coqchk-' + tree_stamp() + '.log')
+        lk = open(cache + '.lock', 'w')
+        fcntl.flock(lk, fcntl.LOCK_EX)
+        try:
+            if not os.path.exists(cache):
+                out_ = sh(f'cd {V}/coq && timeout 5400 coqchk -silent -o -Q theories SaoVerif {libs} 2>&1 | tail -40').stdout
+                open(cache, 'w').write('LIBS ' + libs + '\n' + out_)
+        finally:
+            fcntl.flock(lk, fcntl.LOCK_UN)
         out = open(cache).read()
         m_ax = re.search(r'\* Axioms:(.*?)\n\s*\n\* Constants', out, re.S)
         ax_txt = ' '.join(m_ax.group(1).split()) if m_ax else 'coqchk gave no summary: ' + out[-300:]
-        clean = bool(m_ax) and ax_txt == '<none>' and 'type-in-type: <none>' in out and 'unsafe (co)fixpoints: <none>' in out and 'positivity is assumed: <none>' in out
-        obligations.append((f'coqchk -o {lib}: no axioms, no unchecked fixpoints, positivity or universes', clean, '' if clean else ax_txt[:600]))
+        clean = bool(m_ax) and ax_txt == '<none>' and 'type-in-type: <none>' in out and 'unsafe (co)fixpoints: <none>' in out and 'positivity is assumed: <none>' in out \
+            and lib in out.splitlines()[0]
+        obligations.append((f'coqchk -o (all property files, incl. {lib}): no axioms, no unchecked fixpoints, positivity or universes', clean, '' if clean else ax_txt[:600]))
         trusted.append('coqchk -silent -o: Axioms: ' + ax_txt[:300])
     axioms = sorted({a_ for a_ in assumptions_seen.values() if a_ != 'closed'})
     trusted.append('Print Assumptions: ' + ('all property theorems closed under the global context' if not axioms else '; '.join(axioms)))
